@@ -581,6 +581,27 @@ func c09Kauri(c *Ctx) {
 				bad = append(bad, f+" is not set from the proposal and the replica's own vote")
 			}
 		}
+		// reset() clears everything that belongs to one aggregation
+		if rs != nil {
+			kr := NewKeyer(p, rs)
+			cleared := map[string]bool{}
+			eachInstr(rs, func(in ssa.Instruction) {
+				if st, ok := in.(*ssa.Store); ok {
+					if fa, ok := st.Addr.(*ssa.FieldAddr); ok && strings.HasPrefix(fieldName(fa.X.Type(), fa.Field), kKauri) {
+						f := strings.TrimPrefix(fieldName(fa.X.Type(), fa.Field), kKauri)
+						// (a value that does not read the old state: nil, false, a fresh empty list)
+						if v := kr.Key(st.Val); isNilConst(st.Val) || isBoolConst(st.Val, false) || v == "nil" || (!strings.Contains(v, kKauri) && !isBoolConst(st.Val, true)) {
+							cleared[f] = true
+						}
+					}
+				}
+			})
+			for _, f := range []string{"aggContrib", "aggSent", "senders"} {
+				if p.Field("protocol/comm", "Kauri", f) != nil && !cleared[f] {
+					bad = append(bad, "reset() does not clear "+f)
+				}
+			}
+		}
 		sortStrings(bad)
 		c.Check(len(bad) == 0, "C09.7/begin", "Kauri.begin: a new aggregation starts clean, with the replica's own vote", p.FuncPos(bg),
 			"after reset(): blockHash := pc.BlockHash(), currentView := p.Block.View(), aggContrib := pc.Signature()", join(bad))
